@@ -587,6 +587,20 @@ fn c01_case<A: QElem>(rng: &mut Rng, acc: &mut Acc) {
     if nq >= 3 && rng.chance(0.4) {
         qs[nq - 1] = qs[0]; // duplicates
     }
+    if nq >= 2 {
+        // several requests inside one rank gap; the list already sorted (either way) in a third of the cases
+        if n >= 2 && rng.chance(0.3) {
+            let k = rng.below(n - 1) as f64;
+            for j in 0..nq.min(3) {
+                qs[j] = ((k + rng.unit()) / (n - 1) as f64).min(1.0);
+            }
+        }
+        match rng.below(6) {
+            0 => qs.sort_by(|a, b| a.partial_cmp(b).unwrap()),
+            1 => qs.sort_by(|a, b| b.partial_cmp(a).unwrap()),
+            _ => {}
+        }
+    }
     let pols = [pick_policy(rng), pick_policy(rng), Pivots::Seeded(rng.next())];
     let outs: Vec<Out<A>> = pols.iter().map(|p| exec(&c, ep, &qs, st, p.clone())).collect();
     acc.evals += 3;
@@ -780,6 +794,18 @@ fn c18_case<A: QElem>(rng: &mut Rng, acc: &mut Acc) {
         }
         qs[0] = 0.0;
         qs[nq - 1] = 1.0;
+    }
+    // the request list in non-decreasing / non-increasing order (several requests inside one rank gap included)
+    match rng.below(10) {
+        0 | 1 | 2 => {
+            qs.sort_by(|a, b| a.partial_cmp(b).unwrap());
+            acc.count("qs_sorted_ascending");
+        }
+        3 => {
+            qs.sort_by(|a, b| b.partial_cmp(a).unwrap());
+            acc.count("qs_sorted_descending");
+        }
+        _ => {}
     }
     let (epb, eps) = if oned { (Ep::OneDBulk, Ep::OneDSingle) } else { (Ep::AxisBulk, Ep::AxisSingle) };
     let bulk = exec(&c, epb, &qs, st, pick_policy(rng));
